@@ -136,11 +136,15 @@ pub fn label_raw() -> impl Strategy<Value = LabelRaw> {
 }
 
 pub fn scn(max_polys: usize) -> impl Strategy<Value = Scn> {
+    scn_with(1, max_polys, 1)
+}
+
+pub fn scn_with(min_polys: usize, max_polys: usize, min_labels: usize) -> impl Strategy<Value = Scn> {
     (
         key_raw(),
-        proptest::collection::vec(poly_raw(), 1..=max_polys),
+        proptest::collection::vec(poly_raw(), min_polys..=max_polys),
         proptest::collection::vec(fraw_point(), 1..=3),
-        proptest::collection::vec(label_raw(), 1..=4),
+        proptest::collection::vec(label_raw(), min_labels..=4),
         perm_seed(),
         perm_seed(),
         perm_seed(),
